@@ -46,6 +46,7 @@ class StreamSession:
 
     __slots__ = (
         "_closed",
+        "_drained",
         "_external_config",
         "_header",
         "_input_schema",
@@ -77,6 +78,10 @@ class StreamSession:
         self._input_schema: pa.Schema | None = None
         self._output_reader: ValidatedReader | None = None
         self._closed = False
+        # True once close()/cancel() got through draining the output stream; stays
+        # False when the drain was interrupted (e.g. on_log raised).  WorkerPool
+        # only reuses a worker whose last stream was drained.
+        self._drained = False
         self._external_config = external_config
         self._ipc_validation = ipc_validation
         self._shm = shm
@@ -248,6 +253,7 @@ class StreamSession:
         with contextlib.suppress(StopIteration, RpcError, pa.ArrowInvalid, OSError):
             for _ in range(_MAX_DRAIN):
                 _read_batch_with_log_check(self._output_reader, self._on_log, self._external_config, shm=self._shm)
+        self._drained = True
 
     def cancel(self) -> None:
         """Signal the server to stop processing and discard pending work.
@@ -286,6 +292,7 @@ class StreamSession:
         with contextlib.suppress(StopIteration, RpcError, pa.ArrowInvalid, OSError):
             for _ in range(_MAX_DRAIN):
                 _read_batch_with_log_check(self._output_reader, self._on_log, self._external_config, shm=self._shm)
+        self._drained = True
 
     def __enter__(self) -> StreamSession:
         """Enter context manager."""
@@ -299,6 +306,21 @@ class StreamSession:
     ) -> None:
         """Exit context manager."""
         self.close()
+
+
+def _mark_in_flight(transport: RpcTransport, value: bool) -> bool:
+    """Set ``_call_in_flight`` on a pooled transport; return the previous value.
+
+    ``_PooledTransport`` (pool.py) discards a worker whose transport is still
+    marked when it is returned: a request was sent but its response was not
+    read to the end (``on_log`` raised, KeyboardInterrupt, transport error),
+    so the connection is not at a message boundary.  Other transports do not
+    have the attribute and are left alone.
+    """
+    previous = bool(getattr(transport, "_call_in_flight", False))
+    if hasattr(transport, "_call_in_flight"):
+        object.__setattr__(transport, "_call_in_flight", value)
+    return previous
 
 
 class _RpcProxy:
@@ -367,11 +389,16 @@ class _RpcProxy:
         def caller(**kwargs: object) -> object:
             if wire_request_logger.isEnabledFor(logging.DEBUG):
                 wire_request_logger.debug("Unary call: method=%s", info.name)
+            in_flight = _mark_in_flight(transport, True)
             try:
                 _send_request(transport.writer, info, kwargs, shm=shm, protocol_version=protocol_version)
                 reader = ValidatedReader(ipc.open_stream(transport.reader), ipc_validation)
-                return _read_unary_response(reader, info, on_log, ext_cfg, shm=shm)
+                result = _read_unary_response(reader, info, on_log, ext_cfg, shm=shm)
+                _mark_in_flight(transport, in_flight)
+                return result
             except RpcError:
+                # _read_unary_response drained the response before raising.
+                _mark_in_flight(transport, in_flight)
                 raise
             except _TRANSPORT_ERRORS as exc:
                 raise RpcError(
@@ -391,6 +418,7 @@ class _RpcProxy:
         def caller(**kwargs: object) -> StreamSession:
             if wire_stream_logger.isEnabledFor(logging.DEBUG):
                 wire_stream_logger.debug("Stream init: method=%s", info.name)
+            in_flight = _mark_in_flight(transport, True)
             try:
                 _send_request(transport.writer, info, kwargs, shm=shm, protocol_version=protocol_version)
                 # _PooledTransport (pool.py) uses __slots__ and tracks stream
@@ -416,6 +444,7 @@ class _RpcProxy:
                 )
                 if hasattr(transport, "_last_stream_session"):
                     object.__setattr__(transport, "_last_stream_session", session)  # __slots__
+                _mark_in_flight(transport, in_flight)
                 return session
             except RpcError:
                 raise
